@@ -15,6 +15,7 @@
 -/
 import KiraModel.Proofs.SimLemmas
 import KiraModel.Props.C11_real
+import KiraModel.Proofs.GenAgreeSound
 
 set_option linter.unusedSectionVars false
 
